@@ -486,6 +486,9 @@ ares_status_t ares_sconfig_append_fromstr(const ares_channel_t *channel,
 ares_status_t ares_in_addr_to_sconfig_llist(const struct in_addr *servers,
                                             size_t                nservers,
                                             ares_llist_t        **llist);
+const ares_server_t *
+  ares_server_next_configured(const ares_channel_t *channel,
+                              const ares_server_t  *prev);
 ares_status_t ares_get_server_addr(const ares_server_t *server,
                                    ares_buf_t          *buf);
 
